@@ -40,8 +40,9 @@ BLANKS = ['', ' ', '  ', '\n', '\t', '\r\n', ' \n ', '\x00', '\x0b\x0c', '\xa0',
 
 def _worker(task):
     modname, part, nparts, seed, tier = task
-    P = PARAMS[tier]
     mod = common.module(modname)
+    sc = G.budget_scale(mod)
+    P = dict((k, G.scaled(v, sc) if isinstance(v, int) else v) for k, v in PARAMS[tier].items())
     rng = G.task_rng(seed, PROPERTY, modname, part)
     fnd, st = G.Findings(), G.Stats()
     rf = G.relfile(mod)
@@ -303,8 +304,7 @@ def search(seed, tier):
     t0 = time.time()
     names = [m.__name__ for m in common.number_modules()]
     tasks = [(n, p, k, seed, tier) for (n, p, k) in G.module_tasks(names, tier, 60 if tier == 'thorough' else 30)]
-    order = sorted(range(len(tasks)), key=lambda i: (-len(common.valid_numbers(tasks[i][0])), i))
-    results = G.run_tasks(_worker, [tasks[i] for i in order])
+    results = G.run_tasks(_worker, G.schedule(tasks))
     results.sort(key=lambda r: r['task'])
     clock = G.clock_modules()
     options = {}
